@@ -284,6 +284,9 @@ func vocabMain(x *X) {
 	if o.DNative+o.DFallback != 1 || (o.DFallback == 1) != o.Fallback {
 		x.Viol("C08", "counter", key("counter-delta"), fmt.Sprintf("%s: per-path counter moved by native=%v fallback=%v for one created query", desc, o.DNative, o.DFallback))
 	}
+	if o.QueryType != "" && strings.Contains(o.QueryType, "allback") != o.Fallback {
+		x.Viol("C08", "counter", key("counter-path"), fmt.Sprintf("%s: the engine returned a %s but counted the query as fallback=%v", desc, o.QueryType, o.Fallback))
+	}
 	if o.Fallback && op.Eng.NoFallback {
 		x.Viol("C08", "vocab", key("fallback-although-disabled"), fmt.Sprintf("%s: counted as fallback although fallback is disabled", desc))
 	}
